@@ -1147,6 +1147,14 @@ func c17RespOptions(c *h.Ctx) {
 				if hf.f.T.T == tref.STRING && cs.R.Chance(20) {
 					x = tref.Str("") // an empty value is a value
 				}
+				if hf.f.T.T == tref.LIST && hf.f.T.Elem.T == tref.STRING && len(x.L) > 0 && cs.R.Chance(35) {
+					// empty elements, also in front
+					x.L[0] = tref.Str("")
+					if len(x.L) > 2 && cs.R.Bool() {
+						x.L[1] = tref.Str("")
+					}
+					cs.Cover("respopt_list_with_empty_elements")
+				}
 			}
 			msg.Fs = append(msg.Fs, tref.Field{ID: hf.f.ID, V: x})
 			e := exp{hf: hf, v: x}
